@@ -360,7 +360,10 @@ def run_sync_row(row, via):
 
     def outcome(case):
         res = ExtendedTestResult()
-        case.run(res)
+        try:
+            case.run(res)
+        except Exception as ex:  # run() itself raising is part of the observable outcome
+            return [e[0] for e in res._events] + ["run() raised " + type(ex).__name__]
         return [e[0] for e in res._events]
 
     direct = outcome(make("plain", None))
